@@ -569,12 +569,12 @@ impl Check for C07 {
                 }
             }
         }
-        crate::prop::run(ctx, "soup", t.pick(2_000, 40_000), soup_strategy(), |ctx, s| check_text(ctx, s, false));
-        crate::prop::run(ctx, "shaped-soup", t.pick(1_500, 25_000), shaped_soup_strategy(), |ctx, s| {
+        crate::prop::run(ctx, "soup", t.pick(8_000, 80_000), soup_strategy(), |ctx, s| check_text(ctx, s, false));
+        crate::prop::run(ctx, "shaped-soup", t.pick(6_000, 50_000), shaped_soup_strategy(), |ctx, s| {
             check_text(ctx, s, false)
         });
         let muts = || prop::collection::vec(mutation_strategy(), 1..6);
-        crate::prop::run(ctx, "mutated-nsgen", t.pick(1_500, 25_000), (tape_strategy(400), muts()), |ctx, (tape, muts)| {
+        crate::prop::run(ctx, "mutated-nsgen", t.pick(6_000, 50_000), (tape_strategy(400), muts()), |ctx, (tape, muts)| {
             let (p, _) = generate(tape, profile_by_name("general"));
             let base = render_canonical(&tokens(&p));
             let text = apply_mutations(&base, muts);
@@ -582,17 +582,17 @@ impl Check for C07 {
         });
         if !corpus.is_empty() {
             let n = corpus.len();
-            crate::prop::run(ctx, "mutated-corpus", t.pick(800, 12_000), (0..n, muts()), |ctx, (i, muts)| {
+            crate::prop::run(ctx, "mutated-corpus", t.pick(3_000, 25_000), (0..n, muts()), |ctx, (i, muts)| {
                 let text = apply_mutations(&corpus[*i], muts);
                 check_text(ctx, &text, false)
             });
         }
         // CLI gate sample (subprocess per case: fewer cases)
-        crate::prop::run(ctx, "cli-gate-soup", t.pick(120, 2_000), shaped_soup_strategy(), |ctx, s| {
+        crate::prop::run(ctx, "cli-gate-soup", t.pick(300, 3_000), shaped_soup_strategy(), |ctx, s| {
             check_text(ctx, s, true)
         });
         let muts2 = prop::collection::vec(mutation_strategy(), 0..3);
-        crate::prop::run(ctx, "cli-gate-mutated", t.pick(120, 2_000), (tape_strategy(300), muts2), |ctx, (tape, muts)| {
+        crate::prop::run(ctx, "cli-gate-mutated", t.pick(300, 3_000), (tape_strategy(300), muts2), |ctx, (tape, muts)| {
             let (p, _) = generate(tape, profile_by_name("general"));
             let base = render_canonical(&tokens(&p));
             let text = apply_mutations(&base, muts);
